@@ -65,7 +65,9 @@ type shortHeaderPacket struct {
 	KeyPhase        protocol.KeyPhaseBit
 }
 
-func (p *shortHeaderPacket) IsAckEliciting() bool { return ackhandler.HasAckElicitingFrames(p.Frames) }
+func (p *shortHeaderPacket) IsAckEliciting() bool {
+	return len(p.StreamFrames) > 0 || ackhandler.HasAckElicitingFrames(p.Frames)
+}
 
 type coalescedPacket struct {
 	buffer         *packetBuffer
